@@ -82,7 +82,12 @@ func c20show(v interface{}) string {
 // CheckTxJSON serialises tx and compares the parsed document with it. It
 // returns ("", "") when everything the property states holds, else a stable
 // key naming what fails and a message.
-func CheckTxJSON(tx *gobinlog.Transaction) (key, msg string) {
+func CheckTxJSON(tx *gobinlog.Transaction) (key, msg string) { return checkTxJSON(tx, false) }
+
+// checkTxJSON: with rowsAlways, an event that carries a statement text AND rows
+// (which the pinned library never delivers; a library that keeps the text of a
+// ROWS_QUERY event on its row events does) must show its rows as well.
+func checkTxJSON(tx *gobinlog.Transaction, rowsAlways bool) (key, msg string) {
 	var b []byte
 	var err error
 	if p := core.Guard(func() { b, err = json.Marshal(tx) }); p != "" {
@@ -163,7 +168,10 @@ func CheckTxJSON(tx *gobinlog.Transaction) (key, msg string) {
 			if !c20Str(sql, src.Query.SQL) {
 				return "txjson-sql-text", fmt.Sprintf("%s.sql = %s, want %s", path, c20show(sql), c20q(src.Query.SQL))
 			}
-			continue // statement form: rows are not part of it
+			if !rowsAlways || (len(src.RowValues) == 0 && len(src.RowIdentifies) == 0) {
+				continue // statement form without rows
+			}
+			// an event that carries both a statement text and rows must show both
 		}
 		for _, part := range [...]struct {
 			name string
